@@ -492,7 +492,16 @@ class Ctx:
                     f.write(json.dumps(case) + "\n")
                 rr = self.replay(name, single, race=race, extra=extra)
                 if rr[0]["ok"]:
-                    raise Broken("failure of %s case not reproducible in isolation: %s" % (name, json.dumps(r)[:500]))
+                    # not reproducible alone: the failure may need the history of the earlier cases of the stage (state the
+                    # library keeps across calls or ACROSS INSTANCES); it is a verdict if the same case fails again when the
+                    # whole stage is run again, otherwise the machinery is broken
+                    if whole is None:
+                        whole = self.replay(name, cases_path, race=race, extra=extra)
+                    if whole[r["i"]]["ok"]:
+                        raise Broken("failure of %s case not reproducible in isolation nor by running the stage again: %s"
+                                     % (name, json.dumps(r)[:500]))
+                    r["history"], r["cases_path"] = True, cases_path
+                    r["what"] = "only after the history of the earlier cases in the same process (it passes when run alone): " + (r.get("what") or "")
             for case, r in lst:
                 self.fail_results.append((name, case, r))
         return fails
